@@ -267,4 +267,33 @@ theorem visitor_unlocked (s : CSt K V) (f : K → V → Bool) :
   subst hr
   simp [rangeEvs_unlocked]
 
+/-! ### Lookups read only: the actions of the `Get` family on a live or absent key, and of `Count` -/
+
+/-- an action that takes no bucket lock and writes nothing: a lock-free `Load`, `Size`, a clock read -/
+def readOnly : Ev K V → Bool
+  | .load _ | .size | .clock => true
+  | _ => false
+
+theorem lookup_actions_absent (s : CSt K V) (k : K) (hg : s.items.get k = none) :
+    (deepTrace twinMapTr s (.get k)).map (·.2.2) = some [.load k] ∧
+    (deepTrace twinMapTr s (.getWithExpiration k)).map (·.2.2) = some [.load k] ∧
+    (deepTrace twinMapTr s (.getWithTTL k)).map (·.2.2) = some [.load k] := by
+  refine ⟨?_, ?_, ?_⟩ <;> trace_simp
+
+theorem lookup_actions_live (s : CSt K V) (k : K) (i : Item V) (hg : s.items.get k = some i)
+    (he : Gen.item_expired i.e s.now = false) :
+    (deepTrace twinMapTr s (.get k)).map (·.2.2) = some [.load k, .clock] ∧
+    (deepTrace twinMapTr s (.getWithExpiration k)).map (·.2.2) = some [.load k, .clock] ∧
+    ((deepTrace twinMapTr s (.getWithTTL k)).map (·.2.2) = some [.load k, .clock] ∨
+     (deepTrace twinMapTr s (.getWithTTL k)).map (·.2.2) = some [.load k, .clock, .clock]) := by
+  refine ⟨?_, ?_, ?_⟩
+  · trace_simp
+  · by_cases hp : i.e > 0 <;> trace_simp
+  · by_cases hp : i.e > 0
+    · right; trace_simp
+    · left; trace_simp
+
+theorem count_actions (s : CSt K V) : (deepTrace twinMapTr s .count).map (·.2.2) = some [.size] := by
+  trace_simp
+
 end DeepTrace
